@@ -20,6 +20,10 @@ Streams
           (a0) correspondence: the reader's statements of the executable part == the Lean
               `unitStatements` of the logical lines (`;` outside literals, literals with free
               content: other quote kind, doubled delimiter, `;`, `!`, `&`, call-like text);
+          (a0') correspondence (round 5): the same statements == the Lean reader model (`readAll`,
+              shared with C02) on the PHYSICAL lines of the executable part: comments, interspersed
+              lines and every continuation style - a statement may be cut at any position outside
+              literals, the blank between two tokens may stand only in front of the trailing `&`;
           (a) correspondence: `unit.calls` before `correlate()` == the Lean `runUnit` on the
               statements the reader delivers for the unit itself; after `correlate()` the kept
               chains of length 1 == the Lean `keptCalls` (scope model over the generated EXTERNAL
@@ -29,6 +33,10 @@ Streams
           (b) property oracle: the identities in `unit.calls` after `correlate()` are exactly
               the user procedures the AST invokes (`spec`, structural recursion on the AST),
               each once.
+  names : (round 5) the deny-list `_add_procedure_calls` applies is probed on the real method
+          (translator G1) and compared with the pinned specification `Spec/CallsNames.lean`; the
+          generator names user procedures after (alleged) intrinsics and prefers the names in the
+          difference of the two lists, so a grown or shrunk list meets a concrete failing input.
 """
 from __future__ import annotations
 
@@ -56,6 +64,59 @@ EXTS_POOL = ["exts", "do_it", "call_out"]
 ARR_POOL = ["arr", "v", "sinv", "a2", "cosv", "fa_arr", "iff", "wherev"]
 INTR_F = ["sin", "cos", "abs", "max", "min", "sqrt", "mod", "real", "int", "size", "sum", "maxval",
           "exp", "nint", "merge", "len_trim", "trim", "any", "all", "allocated", "present"]
+# round 5: standard intrinsic functions / subroutines (Fortran 2008).  They are used (a) as references
+# that must NOT be recorded - only those the specification lists (`Spec/CallsNames.lean`) - and (b) as
+# names a USER procedure may carry: Fortran has no reserved words, a module procedure `sum` or `index`
+# hides the intrinsic and a reference to it invokes the user procedure.
+STD_INTR_F = INTR_F + ["acos", "aimag", "anint", "atan2", "ceiling", "cmplx", "conjg", "count", "dble", "dot_product",
+                       "epsilon", "floor", "huge", "iand", "index", "ior", "ishft", "lbound", "len", "log", "log10",
+                       "matmul", "maxloc", "minval", "modulo", "norm2", "product", "reshape", "scan", "shape", "sign",
+                       "sinh", "spread", "tan", "tanh", "tiny", "transpose", "ubound", "verify", "associated", "kind",
+                       "adjustl", "repeat", "char", "ichar", "floor", "bit_size", "btest", "cshift", "eoshift"]
+STD_INTR_S = ["random_number", "random_seed", "cpu_time", "system_clock", "date_and_time", "get_command_argument",
+              "get_environment_variable", "move_alloc", "mvbits", "execute_command_line", "get_command"]
+
+
+class Names:
+    """What decides whether a name is withheld from `calls` (set once per run, before generation):
+      spec     the specified intrinsic / keyword names (`Ford.CallsSpec.neverRecorded`, pinned)
+      impl     the names the implementation really never records (probed on the real method)
+      added    impl - spec : names a user procedure may carry but the implementation swallows
+      dropped  spec - impl : intrinsics / keywords the implementation would record
+    The generator is DIRECTED by the difference: user procedures are preferably given `added` names,
+    intrinsic references preferably `dropped` names - on the unchanged tree both are empty."""
+    spec: set = set()
+    impl: set = set()
+    added: list = []
+    dropped: list = []
+    intr_f: list = list(INTR_F)
+    intr_s: list = []
+    user_like_f: list = []
+    user_like_s: list = []
+
+    @classmethod
+    def setup(cls, spec, impl):
+        cls.spec, cls.impl = set(spec), set(impl)
+        cls.added = sorted(cls.impl - cls.spec)
+        cls.dropped = sorted(n for n in cls.spec - cls.impl if n in STD_INTR_F or n in STD_INTR_S)
+        cls.intr_f = [n for n in dict.fromkeys(STD_INTR_F) if n in cls.spec]
+        cls.intr_s = [n for n in STD_INTR_S if n in cls.spec]
+        cls.user_like_f = [n for n in dict.fromkeys(STD_INTR_F) if n in cls.spec
+                           # `reshape` and `trim` are written into generated declarations / I/O statements as the
+                           # intrinsics; type keywords would make a function statement ambiguous
+                           and n not in ("real", "int", "kind", "len", "char", "reshape", "trim")]
+        cls.user_like_s = list(cls.intr_s)
+
+
+def pool_names() -> list[str]:
+    """every identifier the generator may use for a procedure or array (candidates of the deny-list probe)"""
+    out = (FUNC_POOL + SUB_POOL + EXTF_POOL + EXTS_POOL + ARR_POOL + INT_POOL_F + INT_POOL_S + STD_INTR_F + STD_INTR_S
+           + ["genf", "gensub", "get", "vals", "init", UNIT_NAME])
+    for td in TYPES_COLLIDING.values():
+        out += list(td["bound"])
+    for td in TYPES.values():
+        out += list(td["bound"])
+    return sorted(set(out))
 TYPES = {
     "t0": {"scalars": ["val"], "arrays": ["q"], "objs": {}, "bound": {}},
     "t1": {"scalars": ["cnt"], "arrays": ["vals"], "objs": {"inner": "t0"},
@@ -94,6 +155,24 @@ class Universe:
                 self.extf.append("vals")       # external function `vals` and component array `vals`
             else:
                 self.exts.append("init")       # external subroutine `init` and bound `init`
+        # round 5: a user procedure whose name the implementation (or the specification) takes for an
+        # intrinsic.  Names the implementation withholds but the specification does not list come first.
+        self.deny_named = []
+        if rng.random() < (0.35 if Names.added else 0.10):
+            for _ in range(rng.choice([1, 1, 2])):
+                kind = rng.choice(["function", "subroutine"])
+                if Names.added and rng.random() < 0.8:
+                    nm = rng.choice(Names.added)
+                else:
+                    nm = rng.choice(Names.user_like_f if kind == "function" else Names.user_like_s)
+                if nm in self.funcs + self.subs + self.extf + self.exts + self.arrs or nm in [d[0] for d in self.deny_named]:
+                    continue
+                where = "module" if rng.random() < 0.7 else "external"
+                self.deny_named.append((nm, kind, where))
+                if where == "module":
+                    (self.funcs if kind == "function" else self.subs).append(nm)
+                else:
+                    (self.extf if kind == "function" else self.exts).append(nm)
         self.unit_kind = rng.choice(["subroutine", "subroutine", "function", "program"])
         self.name = UNIT_NAME
         # where the unit lives: in the module that defines the procedures and types (host
@@ -695,6 +774,24 @@ class Gen:
                 self.note("literal:odd-other-quote+semicolon")
         return ("str", q + body + q)
 
+    def user_names(self):
+        u = self.u
+        return set(u.funcs + u.subs + u.extf + u.exts + u.arrs + list(u.module_funcs) + list(u.module_subs))
+
+    def intrinsic_name(self, kind):
+        """an intrinsic function / subroutine of the specification that no entity of the unit is
+        named after; names the implementation no longer withholds come first"""
+        r = self.r
+        taken = self.user_names()
+        dropped = [n for n in Names.dropped if n not in taken and (n in STD_INTR_S) == (kind == "s")]
+        if dropped and r.random() < 0.5:
+            return r.choice(dropped)
+        if kind == "f" and r.random() < 0.6:
+            pool = [n for n in INTR_F if n in Names.spec and n not in taken]
+        else:
+            pool = [n for n in (Names.intr_f if kind == "f" else Names.intr_s) if n not in taken]
+        return r.choice(pool)
+
     def assoc_names(self, kind):
         merged = {}
         for d in self.assoc:      # inner scopes shadow outer ones
@@ -746,7 +843,7 @@ class Gen:
             return ("fun", r.choice(self.u.funcs + self.u.extf), self.args(depth, 0, 3))
         if k < 0.36:
             self.note("intrinsic")
-            return ("intr", r.choice(INTR_F), self.args(depth, 1, 2))
+            return ("intr", self.intrinsic_name("f"), self.args(depth, 1, 2))
         if k < 0.52:
             self.note("arrayref")
             names = self.u.arrs + [self.u.garr] + [n for n, _ in self.assoc_names("arr")]
@@ -798,6 +895,10 @@ class Gen:
             o, t = self.obj()
             b = r.choice([k for k, v in self.u.types[t]["bound"].items() if v == "sub"])
             return ("callb", o, t, b, self.args(0, 0, 2) if r.random() < 0.7 else None)
+        if r.random() < 0.06 and Names.intr_s:
+            # an intrinsic subroutine: nothing is invoked but what its arguments invoke
+            self.note("call-intrinsic")
+            return ("icall", self.intrinsic_name("s"), self.args(0, 1, 2))
         name = r.choice(self.u.subs + self.u.exts)
         if r.random() < 0.3:
             self.note("call-noargs")
@@ -1084,6 +1185,8 @@ class Render:
             if n[2] is not None:
                 s += self.sp(0.15) + self.arglist(n[2])
             return s
+        if t == "icall":
+            return self.case("call") + " " + self.name(n[1]) + self.sp(0.15) + self.arglist(n[2])
         if t == "callb":
             s = self.case("call") + " " + self.name(n[1]) + self.pct() + self.name(n[3])
             if n[4] is not None:
@@ -1199,10 +1302,18 @@ NO_JOIN = ("labelled", "format", "doc")
 
 
 def layout(rng: random.Random, stmts: list[str], feat: set, logical: list | None = None) -> list[str]:
-    """Physical lines: `;` joins, `&` continuations at blanks outside literals, trailing comments.
+    """Physical lines: `;` joins, `&` continuations, trailing comments.
+    A statement may be cut (round 5) at ANY position outside character literals - between `call`
+    and the name, in the middle of a name or keyword, inside an argument list.  At a cut that
+    touches a blank every legal style is drawn: the next line without leading `&` (the reader
+    joins with one blank), with `& ` or with `&` directly in front of the text; the trailing `&`
+    with or without a blank in front.  At any other cut the join must be exact: `text&` / `&text`.
+    The blank that separates two tokens may therefore stand only in front of the trailing `&`
+    (`call &` / `&name`) or only behind the leading one.
     `logical` (if given) receives, per group of physical lines, the completed logical line as
-    Fortran's continuation rules define it (a leading `&` joins directly, its absence joins
-    with one blank; comments and interspersed blank/comment lines vanish)."""
+    Fortran's continuation rules define it (a leading `&` resumes right behind it, its absence
+    joins with one blank; the text in front of a trailing `&` belongs to the statement; comments
+    and interspersed blank/comment lines vanish)."""
     lines = []
     k = 0
     while k < len(stmts):
@@ -1220,35 +1331,65 @@ def layout(rng: random.Random, stmts: list[str], feat: set, logical: list | None
         if s.startswith("!!"):
             lines.append(ind + text)
             continue
+        # continuation cuts
+        cuts = []
+        if rng.random() < 0.20:
+            blanks = break_positions(text)
+            anyp = cut_positions(text)
+            nb = 1 if rng.random() < 0.7 else 2
+            for _ in range(nb):
+                pool = blanks if (blanks and rng.random() < 0.5) else anyp
+                if pool:
+                    cuts.append(rng.choice(pool))
+            cuts = sorted(set(cuts))
+            # every piece carries text
+            ok, last = [], 0
+            for c in cuts:
+                if text[last:c].strip() and text[c:].strip():
+                    ok.append(c)
+                    last = c
+            cuts = ok
+        pieces, last = [], 0
+        for c in cuts:
+            pieces.append(text[last:c])
+            last = c
+        pieces.append(text[last:])
+        if cuts:
+            feat.add("continuation")
         joined = ""
-        # continuation breaks
-        pieces = [text]
-        if rng.random() < 0.18:
-            cands = break_positions(text)
-            if cands:
-                nb = 1 if len(cands) < 2 or rng.random() < 0.7 else 2
-                pos = sorted(rng.sample(cands, nb))
-                pieces = []
-                last = 0
-                for p in pos:
-                    pieces.append(text[last:p])
-                    last = p
-                pieces.append(text[last:])
-                feat.add("continuation")
         for i, pc in enumerate(pieces):
-            lead = i > 0 and rng.random() < 0.5
-            ln = ind + ("& " if lead else "") + pc
-            if i < len(pieces) - 1:
-                ln += " &"
-            # the logical line: code part without the continuation marks
-            joined = (joined + " " + pc) if lead else (joined.strip() + " " + pc.strip())
-            if i < len(pieces) - 1:
-                joined += " "
+            final = i == len(pieces) - 1
+            # style of the join in front of this piece / of the `&` behind it
+            lead = tail = ""
+            if i > 0:
+                c = cuts[i - 1]
+                if text[c - 1] == " " or text[c] == " ":
+                    lead = rng.choice(["", "", "& ", "&", "&"])
+                    feat.add({"": "continuation:no-leading-amp", "& ": "continuation:amp-blank", "&": "continuation:amp-glued"}[lead])
+                    if lead == "&" and text[c] != " ":
+                        feat.add("continuation:blank-only-before-amp")
+                else:
+                    lead = "&"
+                    feat.add("continuation:cut-inside-token" if (text[c - 1].isalnum() or text[c - 1] == "_")
+                             and (text[c].isalnum() or text[c] == "_") else "continuation:cut-between-tokens")
+            if not final:
+                c = cuts[i]
+                touching = text[c - 1] == " " or text[c] == " "
+                tail = rng.choice([" &", " &", "&"]) if touching else "&"
+            if i > 0 and lead == "" and pc.lstrip().startswith("&"):
+                lead = "&"
+            ln = ind + lead + (pc.lstrip() if lead == "" and i > 0 else pc) + tail
+            # the logical line: the text in front of the `&` belongs to the statement
+            body = pc.rstrip() if final else pc + (" " if tail == " &" else "")
+            if i == 0 or lead == "":
+                joined = joined.strip() + " " + body.lstrip()
+            else:
+                joined = joined + lead[1:] + body
             if rng.random() < 0.08:
                 ln += rng.choice(["  ! note: call cm(1)", " ! fa(2) here", " !"])
                 feat.add("comment")
             lines.append(ln)
-            if i < len(pieces) - 1 and rng.random() < 0.1:
+            if not final and rng.random() < 0.1:
                 lines.append(rng.choice(["", "   ! comment between, zz(3)"]))
                 feat.add("line-in-continuation")
         if logical is not None:
@@ -1256,19 +1397,35 @@ def layout(rng: random.Random, stmts: list[str], feat: set, logical: list | None
     return lines
 
 
-def break_positions(text: str) -> list[int]:
-    """indices of blanks outside character literals (a continuation may be placed there)"""
+def literal_mask(text: str) -> list[bool]:
+    """per character: does it belong to a character literal (delimiters included)?"""
     out = []
     q = None
-    for i, c in enumerate(text):
+    for c in text:
         if q is None:
             if c in "'\"":
                 q = c
-            elif c == " " and 0 < i < len(text) - 1 and text[i - 1] != " ":
-                out.append(i)
-        elif c == q:
-            q = None
+                out.append(True)
+            else:
+                out.append(False)
+        else:
+            out.append(True)
+            if c == q:
+                q = None
     return out
+
+
+def break_positions(text: str) -> list[int]:
+    """indices of blanks outside character literals (a continuation may be placed there)"""
+    lit = literal_mask(text)
+    return [i for i, c in enumerate(text) if c == " " and not lit[i] and 0 < i < len(text) - 1 and text[i - 1] != " "]
+
+
+def cut_positions(text: str) -> list[int]:
+    """every position 0 < p < len(text) with the characters on both sides outside character
+    literals (a statement may be cut there with `&` ... `&`)"""
+    lit = literal_mask(text)
+    return [p for p in range(1, len(text)) if not lit[p - 1] and not lit[p]]
 
 
 # --------------------------------------------------------------------------
@@ -1378,6 +1535,9 @@ class Spec:
         elif t == "callb":
             self.invoke(("bound", n[2], n[3]), n[3])
             for a in n[4] or []:
+                self.e(a)
+        elif t == "icall":
+            for a in n[2]:
                 self.e(a)
         elif t in ("goto", "simple", "doc"):
             pass
@@ -1496,6 +1656,9 @@ def classify_diff(spec: Spec, missing: set, extra: set, dup: list) -> tuple[set,
         ctxs = {c for i, c in spec.calls if i == m}
         if len(idents_by_last.get(last, ())) > 1:
             classes.add("C08-dedup-last-chain-element")
+        elif m[0] in ("proc", "name", "iface", "generic") and m[-1] in Names.spec:
+            # a user procedure that carries the name of a specified intrinsic / keyword
+            classes.add("C08-user-procedure-named-as-intrinsic-dropped")
         elif m[0] == "name" and m[1] in spec.u.spec.typed_only_ext:
             classes.add("C08-typed-external-function-dropped")
         elif ctxs and ctxs <= {"labelled-call-noargs", "computed-goto"}:
@@ -1897,7 +2060,7 @@ def evaluate(impl: Impl, u, bodies, layout_seed, d: Path):
             at = sl[2]
         r1 = res[1].get(cu.name) if res[0] == "ok" else None
         units.append({"cu": cu, "name": cu.name, "body": body, "stmts": per[cu.name]["stmts"],
-                      "logical": per[cu.name]["logical"], "unit_lines": sl[0] if sl else None,
+                      "logical": per[cu.name]["logical"], "phys": per[cu.name]["phys"], "unit_lines": sl[0] if sl else None,
                       "exec_statements": sl[1] if sl else None, "impl": r1})
     return {"lines": lines, "feat": feat, "impl": res, "units": units}
 
@@ -1993,12 +2156,28 @@ def run(tier: str, seed: int, replay: str | None = None) -> int:
     tinfo = {}
 
     def tr():
-        tinfo.update(translator.translate())
+        tinfo.update(translator.translate(extra_candidates=pool_names()))
 
     lean = lean_prove(PROP, translate=tr, thorough=(tier == "thorough"))
     for b in lean.broken():
         rep.tie_broken("proof: " + b)
     impl = Impl()
+    # which names are withheld: the pinned specification vs. what the real method does (probed).
+    # A difference is a broken tie by itself (the two table theorems no longer check) and directs
+    # the generator towards a concrete failing input.
+    try:
+        spec_names = translator.spec_names()
+        impl_names = tinfo.get("never_recorded")
+        if impl_names is None:
+            impl_names = translator.get_intrinsics(pool_names())[0]
+    except Exception as e:  # noqa
+        rep.tie_broken(f"deny-list: could not be derived: {type(e).__name__}: {e}")
+        spec_names, impl_names = translator.spec_names(), translator.spec_names()
+    Names.setup(spec_names, impl_names)
+    if Names.added or Names.impl != Names.spec:
+        rep.tie_broken(f"table: the names _add_procedure_calls never records differ from the specification "
+                       f"(Spec/CallsNames.lean): added {Names.added}, no longer withheld {sorted(Names.spec - Names.impl)}",
+                       {"stream": "table", "added": Names.added, "dropped": sorted(Names.spec - Names.impl)})
     drv = Driver()
     rng = random.Random(seed * 7919 + 8)
     n_micro = 7000 if tier == "quick" else 70000
@@ -2024,6 +2203,7 @@ def run(tier: str, seed: int, replay: str | None = None) -> int:
         n_units_total = len(flat)
         model = drv.batch([["c08.unit"] + (un["unit_lines"] or []) for _, un in flat])
         model_l = drv.batch([["c08.lines"] + un["logical"] for _, un in flat])
+        model_p = drv.batch([["c08.phys"] + un["phys"] for _, un in flat])
 
         # the scope of the unit: the specification part as statements (attributes and names as
         # written) -> `unit.variables` after `_cleanup`, and the chains of length 1 `correlate`
@@ -2053,8 +2233,8 @@ def run(tier: str, seed: int, replay: str | None = None) -> int:
                     gate_reqs.append(["c08.gate", "0", real_mask(impl.sf, l)])
         for gname in drv.batch(gate_reqs):
             gate_hist[gname[1]] = gate_hist.get(gname[1], 0) + 1
-        for (ev, un), mo, mol in zip(flat, model, model_l):
-            un["model"], un["model_l"] = mo, mol
+        for (ev, un), mo, mol, mop in zip(flat, model, model_l, model_p):
+            un["model"], un["model_l"], un["model_p"] = mo, mol, mop
 
         for ev in results:
             k, u = ev["k"], ev["u"]
@@ -2068,6 +2248,9 @@ def run(tier: str, seed: int, replay: str | None = None) -> int:
                 feat_hist["local-array-hides-module-procedure"] = feat_hist.get("local-array-hides-module-procedure", 0) + 1
             if u.collide:
                 feat_hist["colliding-names"] = feat_hist.get("colliding-names", 0) + 1
+            for nm, kind_, where in u.deny_named:
+                key = "user-procedure-named-as-" + ("specified-intrinsic" if nm in Names.spec else "name-outside-specification")
+                feat_hist[key + ":" + where] = feat_hist.get(key + ":" + where, 0) + 1
             if u.generics:
                 feat_hist["generic-interfaces"] = feat_hist.get("generic-interfaces", 0) + 1
             for iu in u.internals:
@@ -2101,6 +2284,13 @@ def run(tier: str, seed: int, replay: str | None = None) -> int:
                     n_bad_corr += 1
                     rep.tie_broken(f"correspondence unit/statement-separation: model and reader differ on case {k} ({un['name']})",
                                    dict(case, logical_lines=un["logical"], reader=un["exec_statements"], model=mol))
+                # (a0') continuation: the statements the real reader delivers for the executable part ==
+                #       the Lean reader model (`readAll`, doc items dropped) on its PHYSICAL lines
+                mop = un["model_p"]
+                if un["exec_statements"] is None or mop[0] != "ok" or mop[1:] != un["exec_statements"]:
+                    n_bad_corr += 1
+                    rep.tie_broken(f"correspondence unit/continuation: reader model and reader differ on case {k} ({un['name']})",
+                                   dict(case, physical_lines=un["phys"], reader=un["exec_statements"], model=mop))
                 # (a') after correlate, chains of length 1
                 post_names = [p[-1] for p in post]
                 kept1 = [c[0] for c in pre if len(c) == 1 and c[0] in post_names]
@@ -2162,7 +2352,7 @@ def run(tier: str, seed: int, replay: str | None = None) -> int:
              "non-trivial = the real parser recorded at least one call chain for the unit; distinct by digest of the "
              "statements the reader delivered",
         samples=samples,
-        traces_validated_against_impl=ev_micro + 4 * n_units_total,
+        traces_validated_against_impl=ev_micro + 5 * n_units_total,
         correspondence_disagreements=n_bad_corr + bad_micro,
         oracle_failures=n_oracle_fail,
         implementation_errors=n_impl_err,
@@ -2171,7 +2361,10 @@ def run(tier: str, seed: int, replay: str | None = None) -> int:
         cascade_branch_histogram=dict(sorted(gate_hist.items())),
         specification_part_histogram=dict(sorted(spec_hist.items())),
         micro_histogram=micro_hist,
-        generated_tables={"intrinsics": tinfo.get("intrinsics"), "cascade_branches": len(tinfo.get("cascade", [])),
+        generated_tables={"intrinsics": tinfo.get("intrinsics"), "intrinsics_probe": tinfo.get("intrinsics_probe"),
+                          "names_added_to_specification": Names.added,
+                          "names_no_longer_withheld": sorted(Names.spec - Names.impl),
+                          "cascade_branches": len(tinfo.get("cascade", [])),
                           "interpreted_guards": tinfo.get("guards"), "scope": tinfo.get("scope")},
     )
     rep.assumptions += [
@@ -2180,6 +2373,11 @@ def run(tier: str, seed: int, replay: str | None = None) -> int:
         "without those of its nested containers (internal procedures after CONTAINS, interface bodies), which the "
         "generator delimits - a mis-nesting by the real parser shows as a difference of unit.calls",
         "dummy procedures (a dummy argument that is called) are not generated",
+        "user procedures are named after intrinsic PROCEDURES of the specification (Spec/CallsNames.lean) and after "
+        "every name the implementation withholds beyond it, not after statement keywords (`if`, `end`, `type`, ...); the "
+        "deny-list is probed on a finite candidate set (entries of the string tables of ford.intrinsics / ford.sourceform, "
+        "the specified names, the generator's identifiers)",
+        "continuation cuts are placed outside character literals; a literal continued over several lines is C02's",
         "CPython re is on the implementation side only; the hand-written recognisers are its deterministic reading, "
         "validated on the micro stream; FORMAT_RE and ARITH_GOTO_RE are not read by hand: their re._parser parse "
         "trees are regenerated on every run and interpreted by the model (list-of-successes matcher, ASCII "
